@@ -196,7 +196,11 @@ void blast()
           break;
         if (r == -1) temp_read();
         if (ch != '\n') {
+          /* bare CR became a line break: ch starts a new output line */
           substdio_put(&smtpto, "\r\n", 2);
+          if (ch == '.')
+            substdio_put(&smtpto, ".", 1);
+          continue;
         } else
           break;
       }
